@@ -224,7 +224,9 @@ STALE = {'qset': 'stale-set', 'linqset': 'stale-table', 'Predicates': 'stale-loo
 def classify(kind, ie, io, se, so) -> str | None:
     """Class of the difference between implementation (ie, io) and specification (se, so)."""
     if ie != se:
-        if ie == 0 and se == 1:
+        if se == 1:
+            # a duplicate arrival that the implementation did not reject as a duplicate (it went
+            # through, or a later check raised something else first)
             return 'duplicates'
         if ie == 0 and se == 4 and kind == 'Predicates':
             return 'conflicting-arrivals'
